@@ -83,6 +83,7 @@ class C16Oracle(Oracle):
             return
         w = m.width
         a = out.args
+        self.prev_samples = list(m.s) if out.step.get("tag") == "G-beyond-end" else None
         if name == "wav.insert":
             m.insert(a[0], dec_samples(a[1], w))
         elif name == "wav.deleteSegment":
@@ -129,9 +130,19 @@ class C16Oracle(Oracle):
             m = self.m.get(h)
             if m is None:
                 return
+            if not out.ok and getattr(self, "prev_samples", None) is not None:
+                # a time beyond the end of the recording: the statement only covers [0, duration], so
+                # rejecting the call is as acceptable as clamping to the end - but then nothing may change
+                m.s = self.prev_samples
+                self._check_buffer(run, out, out.recv, m, "beyond-end-rejected")
+                run.stats["c16:beyond_end:rejected"] += 1
+                return
             if not out.ok:
                 self.fail(name, f"raised-{type(out.exc).__name__}/w{m.width}/{how}",
                           {"exc": repr(out.exc), "args": repr(out.args)[:300]})
+            if out.step.get("tag") == "G-beyond-end":
+                how = "beyond-end"
+                run.stats["c16:beyond_end:clamped"] += 1
             self._check_buffer(run, out, out.recv, m, how)
             r = out.result
             if name == "wav.getSamples":
@@ -322,6 +333,10 @@ def generate(run, rng):
             b = a
         return a, b, ga and gb
 
+    def beyond(n):
+        """an end time a few samples past the end of the recording (annotations often overrun the audio)"""
+        return (n + rng.randrange(1, 6) + rng.choice([0.0, 0.25])) / rate
+
     def frames(maxn=12):
         return {"$b": enc_samples(_samples(rng, width, rng.randrange(0, maxn + 1)), width).hex()}
 
@@ -336,13 +351,22 @@ def generate(run, rng):
         r = rng.random()
         if r < 0.16:
             t, g = t_at(n)
-            run.do({"op": "wav.insert", "recv": h, "a": [t, frames()], "grid": g})
+            tag = None
+            if rng.random() < 0.05:
+                t, tag = beyond(n), "G-beyond-end"
+            run.do({"op": "wav.insert", "recv": h, "a": [t, frames()], "grid": g, "tag": tag})
         elif r < 0.32:
             a, b, g = span(n)
-            run.do({"op": "wav.deleteSegment", "recv": h, "a": [a, b], "grid": g})
+            tag = None
+            if rng.random() < 0.07:
+                b, tag = beyond(n), "G-beyond-end"
+            run.do({"op": "wav.deleteSegment", "recv": h, "a": [a, b], "grid": g, "tag": tag})
         elif r < 0.44:
             a, b, g = span(n)
-            run.do({"op": "wav.replaceSegment", "recv": h, "a": [a, b, frames()], "grid": g})
+            tag = None
+            if rng.random() < 0.1:
+                b, tag = beyond(n), "G-beyond-end"
+            run.do({"op": "wav.replaceSegment", "recv": h, "a": [a, b, frames()], "grid": g, "tag": tag})
         elif r < 0.5:
             run.do({"op": "wav.concatenate", "recv": h, "a": [frames()]})
         elif r < 0.58:
